@@ -147,7 +147,9 @@ def _check(prop, tier, seed, wd, rp, rule, cfgs_quick, cfgs_thorough, mandatory,
         run_config(run, prop, name, consts, wd, seed, probe_filter=big_filter(0, 4) if "3x3" in name else None)
     # the same graphs with every vertex carrying the same explicit uid, and with neighbour caching on
     name, consts = cfgs[-1]
-    run_config(run, prop, name + "+sameuid+cache", consts, wd, seed, vertex_cls="mixed-sameuid", caching=True)
+    from .checks_query import big_filter as _bf
+    run_config(run, prop, name + "+sameuid+cache", consts, wd, seed, vertex_cls="mixed-sameuid", caching=True,
+               probe_filter=_bf(0, 6) if "3x3" in name else None)
     # larger, denser universes from the specification's own random walk (member lists sampled)
     from .checks_query import big_filter
     kinds = {"D", "U", "D2"} if prop == "C14" else {"D", "U", "T"}
